@@ -1977,6 +1977,13 @@ impl StorageEngine {
         let new_len = if let Some(stored_value) = shard_guard.data.get_mut(&key) {
             match &mut stored_value.value {
                 Value::String(bytes) => {
+                    // The limit SETRANGE has: a string never grows beyond 512 MB (refused, nothing changes)
+                    match bytes.len().checked_add(value.len()) {
+                        Some(n) if n <= 512 * 1024 * 1024 => {}
+                        _ => return Err(FerrousError::Command(CommandError::Generic(
+                            "string exceeds maximum allowed size (512MB)".to_string()
+                        ))),
+                    }
                     bytes.extend_from_slice(&value);
                     let len = bytes.len();
                     // NO touch() call - no access time tracking overhead
